@@ -4,6 +4,10 @@ package server
 
 func HarnessRedeployTraffic() {
 	vT2(vParam("preemptions", 1), vParam("firings", 10))
+	if vParam("policies", 2) == 2 {
+		// both default scheduling policies (earliest-started first / latest-started first) are explored
+		vSchedPolicy(vChoose("sched_policy", 2))
+	}
 	vSortMode = 0
 	N := vParam("targets", 1)
 	C := vParam("clients", 1)
